@@ -107,7 +107,6 @@ pub fn yuv420_to_rgba(y: &[u8], chroma_b: &[u8], chroma_r: &[u8], y_width: usize
     if y.is_empty() {
         debug_assert_eq!(chroma_b.len(), 0);
         debug_assert_eq!(chroma_r.len(), 0);
-        debug_assert_eq!(y_width, 0);
         return vec![];
     }
 
